@@ -476,7 +476,11 @@ def _ensure_minor_version_compatibility_pairwise(
     assert a is not b
     assert a.full_name == b.full_name
     assert a.version.major == b.version.major
-    assert a.version.minor != b.version.minor  # This is the whole point of this function.
+    if a.version.minor == b.version.minor:
+        # Two files define the same name and version, e.g., "Foo.1.0.dsdl" next to "100.Foo.1.0.dsdl".
+        raise _error.InvalidDefinitionError(
+            "This definition has the same name and version as %s" % b.source_file_path, path=a.source_file_path
+        )
 
     # Must be of the same kind: both messages or both services
     if isinstance(a, _serializable.ServiceType) != isinstance(b, _serializable.ServiceType):
